@@ -132,6 +132,9 @@ func init() {
 		}
 		return nil
 	}
+	// vDepthReset / vDepthMax: interpreter call-stack depth relative to the caller (C16)
+	h["vDepthReset"] = func(fr *frame, args []value) value { cur.maxDepth = fr.depth; cur.depthBase = fr.depth; return nil }
+	h["vDepthMax"] = func(fr *frame, args []value) value { return cur.maxDepth - cur.depthBase }
 	h["vSymbolic"] = func(fr *frame, args []value) value { return true }
 	h["vNote"] = func(fr *frame, args []value) value {
 		cur.notes = append(cur.notes, args[0].(string)+"="+toString(args[1]))
